@@ -677,6 +677,9 @@ func (s *State) applyContract(fn *ssa.Function, fc *FuncContract, args []Value, 
 		t := s.evalClause(c, all, pre)
 		s.assume(t)
 	}
+	for _, c := range fc.Defines {
+		s.assume(s.evalClause(c, all, pre))
+	}
 	s.callerLogBase = s.callerLogBase[:len(s.callerLogBase)-1]
 	return res
 }
